@@ -65,9 +65,9 @@ def ga_data_mounted():
 
 # ----------------------------------------------------------------------------- abstract command line -> argv
 
-FIELDS = ["cat", "nuc", "level", "mode", "win", "seed", "count", "act", "mdl", "fault"]
+FIELDS = ["cat", "nuc", "level", "mode", "win", "seed", "count", "act", "mdl", "fault", "sp"]
 DEFAULTS = {"cat": "none", "nuc": "none", "level": ABSENT, "mode": ABSENT, "win": "none", "seed": "none",
-            "count": ABSENT, "act": "none", "mdl": "none", "fault": "none"}
+            "count": ABSENT, "act": "none", "mdl": "none", "fault": "none", "sp": "plain"}
 
 
 def sig(cl):
@@ -82,6 +82,13 @@ def concretise(cl, base, conc):
 
     def o(short):
         return LONG[short] if (variant and short in LONG and rng.random() < 0.5) else short
+
+    def num(v):
+        """spelling of an integer option value: 'padded' = decimal with one leading zero (same value)"""
+        t = str(v)
+        if cl.get("sp", "plain") == "padded" and re.fullmatch(r"\d+", t):
+            return "0" + t
+        return t
     groups = []
     if cl["cat"] != "none":
         groups.append([o("-c"), {"dbd": "dbd", "background": "background", "junk": "alpha"}[cl["cat"]]])
@@ -90,9 +97,9 @@ def concretise(cl, base, conc):
         nucname = conc.get("nucname") or {"bkgP": "Co60", "unk": UNKNOWN_NUCS[variant % len(UNKNOWN_NUCS)]}.get(cl["nuc"], cl["nuc"])
         groups.append([o("-N"), nucname])
     if cl["level"] != ABSENT:
-        groups.append([o("-l"), str(cl["level"])])
+        groups.append([o("-l"), num(cl["level"])])
     if cl["mode"] != ABSENT:
-        groups.append([o("-m"), str(cl["mode"])])
+        groups.append([o("-m"), num(cl["mode"])])
     emin = emax = None
     if cl["win"] in ("lo", "both"):
         emin = "0.05"
@@ -111,10 +118,10 @@ def concretise(cl, base, conc):
         groups.append(w)
     seedtxt = {"none": None, "0": "0", "7": "7", "max": "2147483647", "neg": "-1", "nan": "abc"}[cl["seed"]]
     if seedtxt is not None:
-        groups.append([o("-s"), seedtxt])
+        groups.append([o("-s"), num(seedtxt)])
     n = conc.get("n") or cl["count"]
     if n != ABSENT:
-        groups.append([o("-n"), str(n)])
+        groups.append([o("-n"), num(n)])
     acttxt = {"none": None, "pos": "2.5", "zero": "0", "neg": "-1"}[cl["act"]]
     if acttxt is not None:
         groups.append([o("-a"), acttxt])
@@ -125,7 +132,7 @@ def concretise(cl, base, conc):
         for optname, v in zip(["--pgop-mdl-particle", "--pgop-mdl-rank", "--pgop-mdl-cone-phi", "--pgop-mdl-cone-theta",
                                "--pgop-mdl-cone-aperture"], mdl):
             if v is not None:
-                g += [optname, str(v)]
+                g += [optname, num(v) if optname == "--pgop-mdl-rank" else str(v)]
         groups.append(g)
     if variant:
         rng.shuffle(groups)
@@ -1126,10 +1133,15 @@ def select_cases(grid, tier, rng, bkg, dbd, ga):
         rest = [g for g in others if id(g) not in cid]
         chosen += rng.sample(rest, min(len(rest), 500))
         # accepted: the whole core, and a sample of the option combinations around the bases
-        core = [g for g in runs if all(g["cl"][f] == DEFAULTS[f] for f in ("seed", "count", "act", "mdl", "fault"))]
+        core = [g for g in runs if all(g["cl"][f] == DEFAULTS[f] for f in ("seed", "count", "act", "mdl", "fault", "sp"))]
         cid = {id(g) for g in core}
         around = [g for g in runs if id(g) not in cid]
-        runs = core + rng.sample(around, min(len(around), 150))
+        # zero-padded numbers: every accepted base command line, and the kill-point configurations
+        padded = [g for g in around if g["cl"]["sp"] == "padded" and ndev(g["cl"]) <= 3
+                  and sum(1 for f in ("act", "mdl", "fault") if g["cl"][f] != DEFAULTS[f]) == (2 if g["cl"]["count"] == 3 else 0)]
+        pid = {id(g) for g in padded}
+        around = [g for g in around if id(g) not in pid]
+        runs = core + padded + rng.sample(around, min(len(around), 150))
     for g in runs + chosen:
         cl = g["cl"]
         variants = [0] if tier == "quick" else [0, 1 + rng.randrange(50)]
@@ -1144,7 +1156,9 @@ def select_cases(grid, tier, rng, bkg, dbd, ga):
             variants = list(range(len(UNKNOWN_OPTS)))
         for v in variants:
             conc = {"variant": v if v else rng.randrange(3) if tier == "quick" else v}
-            if g["plan"]["verdict"] == "run" and cl["count"] == ABSENT:
+            if g["plan"]["verdict"] == "run" and cl["sp"] == "padded":
+                conc["n"] = 12          # 012: a reading in another radix would give another count
+            elif g["plan"]["verdict"] == "run" and cl["count"] == ABSENT:
                 # the model's default is one record; also ask the same settings for a few more (explicit -n)
                 nn = rng.choice([None, 2, 3, 5])
                 if nn:
